@@ -335,3 +335,124 @@ pub fn scan(root: &Relation) -> Scan {
 pub fn contains_node(root: &Relation, needle: &Relation) -> bool {
     nodes(root).iter().any(|n| n.name() == needle.name() && *n == needle)
 }
+
+/// A map computing clipping scale factors: projection items of the form
+/// `1 / greatest(1, norm / C)` (or the constant 0 when C = 0).
+#[derive(Clone, Debug)]
+pub struct ScaleMap {
+    pub map: Relation,
+    /// (field name, C)
+    pub factors: Vec<(String, f64)>,
+}
+
+/// `a / b`, either raw or in the guarded form `case(b >= eps or b <= -eps, a / b, 0)` that
+/// `Expr::divide` builds.
+fn as_divide(e: &Expr) -> Option<(Expr, Expr)> {
+    let (f, a) = func(e)?;
+    match f {
+        F::Divide => Some((a[0].clone(), a[1].clone())),
+        F::Case if a.len() == 3 => {
+            let (f2, a2) = func(&a[1])?;
+            if f2 == F::Divide && float_value(&a[2]) == Some(0.0) {
+                Some((a2[0].clone(), a2[1].clone()))
+            } else {
+                None
+            }
+        }
+        _ => None,
+    }
+}
+
+fn scale_factor(e: &Expr) -> Option<f64> {
+    let (n, d) = as_divide(e)?;
+    if float_value(&n)? != 1.0 {
+        return None;
+    }
+    let (f, a) = func(&d)?;
+    if f != F::Greatest || a.len() != 2 {
+        return None;
+    }
+    let (one, q) = if float_value(&a[0]).is_some() { (&a[0], &a[1]) } else { (&a[1], &a[0]) };
+    if float_value(one)? != 1.0 {
+        return None;
+    }
+    let (_, c) = as_divide(q)?;
+    float_value(&c)
+}
+
+pub fn scale_maps(root: &Relation) -> Vec<ScaleMap> {
+    let mut out = vec![];
+    for r in nodes(root) {
+        if let Relation::Map(m) = r {
+            let mut factors = vec![];
+            for (field, expr) in m.field_exprs() {
+                if let Some(c) = scale_factor(expr) {
+                    factors.push((field.name().to_string(), c));
+                }
+            }
+            if !factors.is_empty() {
+                out.push(ScaleMap { map: r.clone(), factors });
+            }
+        }
+    }
+    out
+}
+
+/// Trace a pre-noise column back to the clipping constant it was clipped with:
+/// pre-noise relation = Reduce{ sum(a) as col }, its input Map{ a = x * sf }, that map's input
+/// Join(left = rows, right = scale-factor map) where sf comes from a field whose expression is
+/// `1 / greatest(1, norm / C)` (C), or the literal 0 (C = 0). `None` when the IR does not have
+/// this shape (then the direct check is skipped, never failed).
+pub fn clip_of(pre_noise: &Relation, col: &str) -> Option<f64> {
+    let red = match pre_noise {
+        Relation::Reduce(r) => r,
+        _ => return None,
+    };
+    let (_, agg) = red.field_aggregates().into_iter().find(|(f, _)| f.name() == col)?;
+    if *agg.aggregate() != qrlew::expr::aggregate::Aggregate::Sum {
+        return None;
+    }
+    let a = agg.column().last().ok()?.to_string();
+    let m = match red.input() {
+        Relation::Map(m) => m,
+        _ => return None,
+    };
+    let (_, e) = m.field_exprs().into_iter().find(|(f, _)| f.name() == a)?;
+    let (f, args) = func(e)?;
+    if f != F::Multiply {
+        return None;
+    }
+    let names: Vec<String> = args
+        .iter()
+        .filter_map(|x| match x {
+            Expr::Column(c) => c.last().ok().map(|s| s.to_string()),
+            _ => None,
+        })
+        .collect();
+    if names.len() != 2 {
+        return None;
+    }
+    let join = match m.input() {
+        Relation::Join(j) => j,
+        _ => return None,
+    };
+    // which of the two multiplied columns comes from the right input of the join?
+    let left_len = join.left().schema().len();
+    for n in &names {
+        if let Some(pos) = join.schema().iter().position(|f| f.name() == n) {
+            if pos >= left_len {
+                let right_field = join.right().schema().iter().nth(pos - left_len)?;
+                if let Relation::Map(sm) = join.right() {
+                    let (_, se) = sm.field_exprs().into_iter().find(|(f, _)| f.name() == right_field.name())?;
+                    if let Some(c) = scale_factor(se) {
+                        return Some(c);
+                    }
+                    if float_value(se) == Some(0.0) {
+                        return Some(0.0);
+                    }
+                }
+            }
+        }
+    }
+    None
+}
